@@ -177,7 +177,50 @@ def thread_cases(tier):
                 for m in (0, 1, 2, 3):
                     out.append(dict(z=z, progs=[prog, ['ab']], mode='sync', family='abandon-window',
                                     schedule=[0] * j + [1] * 4 + [0] * k + [1] * m + [0] * 12 + [1] * 40))
+        # ROUND-ROBIN schedules (Properties/C13_Fair.lean: `round_robin_completes`, `abandon_round_robin_socket_shut`): one or two
+        # senders and the abandoning loop, entry j = thread (j + rot) % n, far longer than needed: see `rr_walk`
+        for second in (None, 'pi', 'st0'):
+            progs = [prog] + ([c11.prog(1, [second])] if second else []) + [['ab']]
+            n = len(progs)
+            for rot in (range(n) if tier != 'quick' else (0, n - 1)):
+                out.append(dict(z=z, progs=progs, mode='sync', family='round-robin', rr=[n, rot],
+                                schedule=[(j + rot) % n for j in range(RR_LEN)]))
     return out
+
+
+RR_LEN = 400
+# `example`s of Properties/C13_Fair.lean (kernel-checked): programs send_text (uncompressed) / send_ping / abandon, round-robin from
+# thread 0: all threads are done after exactly 60 entries, 23 of which moved a thread (model bound: 3 * 23 = 69 entries)
+RR_ANCHOR = dict(kinds=('st0', 'pi', 'ab'), rot=0, entries=60, moving=23, bound=69)
+
+
+def rr_walk(n, rot, length, steps):
+    """Re-read the step log of a run under the round-robin schedule `(j + rot) % n`, j < length: an entry of an unfinished thread logs
+    exactly one record (its sync step, or `blocked`), an entry of a finished thread logs nothing.  Returns (entries consumed up to the
+    last record, records that are steps, longest run of consecutive entries without a step before the end), or None when the log is not
+    that of the round-robin schedule alone (the schedule ran out and the scheduler had to drain the threads itself)."""
+    tot = [sum(1 for t, _ in steps if t == u) for u in range(n)]
+    used = [0] * n
+    i = j = idle = worst = moving = 0
+    while i < len(steps):
+        if j >= length:
+            return None
+        t = (j + rot) % n
+        j += 1
+        if used[t] == tot[t]:
+            idle += 1
+        else:
+            if steps[i][0] != t:
+                return None
+            used[t] += 1
+            if steps[i][1] == 'blocked':
+                idle += 1
+            else:
+                moving += 1
+                idle = 0
+            i += 1
+        worst = max(worst, idle)
+    return j, moving, worst
 
 
 def explore_threads(res, tier, model_ok=True):
@@ -187,17 +230,20 @@ def explore_threads(res, tier, model_ok=True):
     todo = [(c, r) for c, r in zip(cases, reals) if '__crash__' not in r]
     lines = [thrutil.model_line(c, r['steps']) for c, r in todo]
     models = dict(zip((id(r) for _, r in todo), runner.model_run(lines) if (model_ok and lines) else [None] * len(lines)))
+    if model_ok and lines:
+        models = dict(zip((id(r) for _, r in todo), thrutil.align_models(res, todo, [models[id(r)] for _, r in todo])))
     mlines = dict(zip((id(r) for _, r in todo), lines))
     for c, r in zip(cases, reals):
         if '__crash__' in r:
             res.crashes.append(r); continue
-        res.case((c['family'], c['z'], tuple(c['progs'][0]), tuple(t for t, _ in r['steps'])), nontrivial=True)
+        res.case((c['family'], c['z'], tuple(c['progs'][0]) if c['family'] != 'round-robin' else tuple(map(tuple, c['progs'])), tuple(t for t, _ in r['steps'])), nontrivial=True)
         res.count('abandon_while_another_thread_sends')
         res.count('family_' + c['family'])
         if any(k == 'blocked' for t, k in r['steps'] if t == 1):
             res.count('abandon_waited_for_the_write_lock')
-        if r['problems']:
-            res.diffs.append(dict(input=c, real=' '.join('%d:%s' % x for x in r['steps'])[-1200:], model='(harness) ' + '; '.join(r['problems'])[:800]))
+        thrutil.note_soft_problems(res, r['problems'])
+        if thrutil.hard_problems(r['problems']):
+            res.diffs.append(dict(input=c, real=' '.join('%d:%s' % x for x in r['steps'])[-1200:], model='(harness) ' + '; '.join(thrutil.hard_problems(r['problems']))[:800]))
         m = models.get(id(r))
         if thrutil.dead_writes(r):
             res.count('model_compared_write_attempted_on_socket_already_shut_by_the_loop' if m is not None
@@ -212,8 +258,26 @@ def explore_threads(res, tier, model_ok=True):
             res.count('abandon_compared_with_thread_model')
             real_line = thrutil.canon_real(c, r)
             mm, peer = thrutil.strip_peer(m)
-            if mm != real_line:
+            if not thrutil.same_observables(mm, real_line):
                 res.diffs.append(dict(input=c, line=mlines[id(r)], real=real_line[-2500:], model=mm[-2500:]))
+        if c['family'] == 'round-robin':
+            # ORACLE (from the property text, no model): under round-robin every thread finishes without help, no full round passes
+            # without a step while a thread is unfinished (no deadlock, no livelock), hence within n * (steps made) entries
+            n, rot = c['rr']
+            w = rr_walk(n, rot, len(c['schedule']), r['steps'])
+            if w is None or w[2] >= n or w[0] > n * max(w[1], 1):
+                res.failures.append(dict(cls='round-robin-stalls', what='round-robin over %d threads (%s) does not bring every thread to completion with a step in every round: %r' % (n, thrutil.progs_str(c), w),
+                                         input=dict(threads=c), observed=' '.join('%d:%s' % x for x in r['steps'])[-1200:],
+                                         expected='all threads done within n * steps entries, fewer than n consecutive entries without a step'))
+            else:
+                res.count('round_robin_completed_within_n_times_steps')
+                res.count('round_robin_needed_%s_times_its_steps' % ('<=1.5' if 2 * w[0] <= 3 * w[1] else '<=2' if w[0] <= 2 * w[1] else '<=3' if w[0] <= 3 * w[1] else '>3'))
+                a = RR_ANCHOR
+                if c['z'] == 0 and rot == a['rot'] and tuple(p[0].split('=')[0] for p in c['progs']) == a['kinds']:
+                    # MODEL vs real: the numbers the Lean `example` states for this very run
+                    res.count('round_robin_anchor_compared_with_lean_example')
+                    if (w[0], w[1]) != (a['entries'], a['moving']) or w[0] > a['bound']:
+                        res.diffs.append(dict(input=c, real='entries=%d moving=%d' % w[:2], model='entries=%d moving=%d bound=%d (Properties/C13_Fair.lean)' % (a['entries'], a['moving'], a['bound'])))
         if not r['flags']['shut']:
             res.failures.append(dict(cls='leak-while-sending', what='the event generator was closed while another thread was inside %s; both threads have finished and the socket is still open' % c['progs'][0],
                                      input=dict(threads=c), observed=' '.join('%d:%s' % x for x in r['steps'])[-1200:]))
